@@ -111,8 +111,13 @@ theorem RawNameOk.quoted {n : Text} (h : RawNameOk n) : NameOk (quoteName n) :=
 theorem declBase_ok (b : FBase) (h : FBaseOk b) : BaseOk (declBase b) := by
   refine ⟨h.name.quoted, ?_, ?_⟩
   · intro d hd
-    simp only [declBase, List.mem_filterMap] at hd
-    obtain ⟨e, he, hed⟩ := hd
+    have hd' : d ∈ b.dims.filterMap (·.1) := by
+      simp only [declBase, fitDims] at hd
+      split at hd
+      · exact hd
+      · cases hd
+    simp only [List.mem_filterMap] at hd'
+    obtain ⟨e, he, hed⟩ := hd'
     exact (h.dims e he).2 d hed
   · intro n hn
     simp only [declBase, List.mem_map] at hn
